@@ -14,6 +14,8 @@ pub mod c09;
 pub mod c10;
 pub mod c13;
 pub mod c14;
+pub mod c16;
+pub mod c17;
 pub mod c18;
 pub mod c19;
 
@@ -67,6 +69,8 @@ pub async fn dispatch(prop: &str, ctx: &Ctx, rep: &mut Report) -> bool {
         "C10" => c10::run(ctx, rep).await,
         "C13" => c13::run(ctx, rep).await,
         "C14" => c14::run(ctx, rep).await,
+        "C16" => c16::run(ctx, rep).await,
+        "C17" => c17::run(ctx, rep).await,
         "C18" => c18::run(ctx, rep).await,
         "C19" => c19::run(ctx, rep).await,
         _ => return false,
